@@ -614,7 +614,7 @@ def run(check):
         triples += n
         if probs and oracle_fail is None:
             oracle_fail = (c, probs, ma, ra)
-        if ma != ra and first_diff is None and "ambiguous" not in ma:
+        if ma != ra and first_diff is None:
             first_diff = (c, ma, ra)
         if ok and c["nontrivial"] and len(check.samples) < 4 and c["lang"] == LANGS[len(check.samples) % 6]:
             got = EXTRACT[c["lang"]]("\n".join(ra["ok"].values()))
